@@ -184,6 +184,32 @@ func (m *RWMutex) RUnlock() {
 	m.readers--
 }
 
+// TryLock and TryRLock never wait: one scheduling point, then the answer the real RWMutex would
+// give in this state (a pending writer refuses new readers, as sync.RWMutex does).
+func (m *RWMutex) TryLock() bool {
+	if !vsched.Active() {
+		return m.real.TryLock()
+	}
+	vsched.PointOp(vsched.Op{Label: "RWMutex.TryLock", Obj: m})
+	if m.writer || m.readers != 0 || m.wpending != 0 {
+		return false
+	}
+	m.writer = true
+	return true
+}
+
+func (m *RWMutex) TryRLock() bool {
+	if !vsched.Active() {
+		return m.real.TryRLock()
+	}
+	vsched.PointOp(vsched.Op{Label: "RWMutex.TryRLock", Obj: m})
+	if m.writer || m.wpending != 0 {
+		return false
+	}
+	m.readers++
+	return true
+}
+
 func (m *RWMutex) RLocker() sync.Locker { return rlocker{m} }
 
 type rlocker struct{ m *RWMutex }
